@@ -38,6 +38,10 @@ for r in rows:
     if first:
         missed += 1
         cb = "**missed first.** " + cb
+    if r.get("status"):
+        cb += " **Status:** " + r["status"]
+    if r.get("rebased"):
+        cb += " *(" + r["rebased"] + ")*"
     out.append(f"| {r['id']} | {r['property']} | {esc(r['summary'])} ({r['files']}) | {esc(r['needs'])} | {esc(cb)} |")
 out.append("")
 out.append(f"{len(rows)} changes; {missed} were missed by the first run of the checks and led to a stronger check; all {len(rows)} are reported now (exit 1, VIOLATION line, replay file).")
